@@ -301,6 +301,7 @@ class Check:
         }
         cov["callees_without_contract_or_body"] = {n: getattr(b, "uncontracted", []) for n, b in sorted(self.built.items()) if getattr(b, "uncontracted", None)}
         cov["callees_lowered_because_new"] = {n: b.auto_lowered for n, b in sorted(self.built.items()) if getattr(b, "auto_lowered", None)}
+        cov["contracts_that_met_no_function"] = {n: b.contracts_unused for n, b in sorted(self.built.items()) if getattr(b, "contracts_unused", None)}
         cov["new_callees_left_unconstrained"] = {n: b.new_unconstrained for n, b in sorted(self.built.items()) if getattr(b, "new_unconstrained", None)}
         cov.update(self.extra_cov)
         ev = {"property_id": self.prop, "tier": self.tier, "seed": self.seed, "level": self.level, "coverage": cov,
